@@ -362,11 +362,10 @@ fn fail_sig(sig: &str, route: Route, prog: &str, out: &Result<Vec<J>, String>) -
     format!("C25/{}/{}/{}", sig, route.name(), shape)
 }
 
-/// How generated program text is spelled. While the parser's char-boundary panic (known
-/// finding) is open, most cases put a space after every `,` `;` `:` `=` — with that a
-/// multi-byte character never starts within two bytes of the end of a sub-expression, so
-/// the defect is not reachable — and a fraction stays tight (`[1,"é"]`) to keep seeing it.
-/// BMP characters are written raw or as `\uXXXX`; characters above the BMP always raw
+/// How generated program text is spelled: tight (`[1,"é"]`, `.a="é"`) or with a space
+/// after every `,` `;` `:` `=`. The tight form with raw non-ASCII text is the shape of the
+/// parser's char-boundary panic fixed in /repo 0b4d05d (replays/C25), so it stays frequent.
+/// BMP characters are written raw or as `\\uXXXX`; characters above the BMP always raw
 /// (the program parser rejects surrogate-pair escapes, a grammar gap outside C25).
 #[derive(Clone, Copy)]
 struct Sp {
@@ -376,7 +375,7 @@ struct Sp {
 
 impl Sp {
     fn draw(u: &mut Src) -> Sp {
-        Sp { tight: u.ratio(1, 8), escape_bmp: u.ratio(1, 3) }
+        Sp { tight: u.ratio(1, 2), escape_bmp: u.ratio(1, 4) }
     }
     fn sep(&self) -> &'static str {
         if self.tight {
@@ -436,8 +435,9 @@ fn path_literal(p: &[J]) -> String {
 
 const KNOWN_PARSER_PANIC: &str = "C25/jq-parser-panic/peek_str-char-boundary";
 
-/// The open known finding: `Parser::peek_str` slices the program text at a byte offset
-/// inside a multi-byte character (only reachable with raw non-ASCII program text).
+/// The finding fixed in /repo 0b4d05d: `Parser::peek_str` sliced the program text at a byte
+/// offset inside a multi-byte character (only reachable with raw non-ASCII program text).
+/// The signature stays distinct so that a regression is reported under its own name.
 fn is_known_parser_panic(prog: &str, err: &str) -> bool {
     !prog.is_ascii() && err.contains("is not a char boundary") && err.contains("src/jq/parser.rs") && (err.starts_with("panic: parse:") || err.contains("panicked at"))
 }
@@ -1157,7 +1157,7 @@ pub fn run(cx: &mut Ctx) {
     cx.check(
         "identities",
         "value round trips (tojson|fromjson, fromstream(tostream), to_entries|from_entries on object roots, [.[]|tojson|fromjson]) on the whole value; @base64|@base64d, @uri|@urid and the two encoders against harness decoders on every string and key of the value (each as its own JSON document with random escape forms); both evaluators",
-        Budget { quick: 12_000, thorough: 600_000, max_len: 3000 },
+        Budget { quick: 40_000, thorough: 1_500_000, max_len: 3000 },
         |u, st| {
             let d = gen_doc(u);
             classify(&d, st, 1);
@@ -1186,7 +1186,7 @@ pub fn run(cx: &mut Ctx) {
     cx.check(
         "paths",
         "[paths] equals the model's path set; for every model path p (all when <=48, else a spread sample): getpath(p) = model lookup, setpath(p; getpath(p)) = input; plus the same through `paths as $p`; both evaluators",
-        Budget { quick: 8_000, thorough: 400_000, max_len: 3000 },
+        Budget { quick: 16_000, thorough: 600_000, max_len: 3000 },
         |u, st| {
             let d = gen_doc(u);
             classify(&d, st, 2);
@@ -1204,7 +1204,7 @@ pub fn run(cx: &mut Ctx) {
     cx.check(
         "sort-unique",
         "arrays built from a few base values, respelled equals (1 / 1.0 / 1e0, rotated object keys) and near neighbours (next double, negation, one more/less element or character); sort must be a non-decreasing permutation and unique one increasing representative per class under the harness's jq total order; both evaluators",
-        Budget { quick: 20_000, thorough: 1_000_000, max_len: 3000 },
+        Budget { quick: 80_000, thorough: 3_000_000, max_len: 3000 },
         |u, st| {
             let arr = gen_sort_array(u);
             let j = J::Arr(arr.clone());
@@ -1231,7 +1231,7 @@ pub fn run(cx: &mut Ctx) {
     cx.check(
         "assign",
         "one model path p (or a fresh key on an existing object) and a generated value v: setpath(p; v), (path-expression) = v, path-expression = v all equal the model with exactly that node replaced, and getpath(p) of the result is v; path expressions mix .a / .\"k\" / .[\"k\"] / [n]; both evaluators",
-        Budget { quick: 20_000, thorough: 1_000_000, max_len: 3000 },
+        Budget { quick: 60_000, thorough: 2_000_000, max_len: 3000 },
         |u, st| {
             let d = gen_doc(u);
             let Some(a) = gen_assign(&d, u) else {
@@ -1256,7 +1256,7 @@ pub fn run(cx: &mut Ctx) {
         cx.check(
             "cli-sample",
             "2-8 generated documents per file (one per line), `succinctly jq -c <prog> file` for the path-free identities (tojson|fromjson, fromstream(tostream), to_entries|from_entries, setpath/getpath over `paths as $p`, string codecs over `.. | strings`), plus four single-document spawns for a drawn path (getpath, setpath-getpath, setpath(p;v), (path)=v)",
-            Budget { quick: 160, thorough: 6_000, max_len: 6000 },
+            Budget { quick: 120, thorough: 5_000, max_len: 6000 },
             |u, st| check_cli(u, st),
         );
         cx.require_class("cli-sample", "nontrivial", 20);
